@@ -9,6 +9,7 @@ import (
 
 	"github.com/zclconf/go-cty/cty"
 	"github.com/zclconf/go-cty/cty/convert"
+	"github.com/zclconf/go-cty/cty/function/stdlib"
 	"pgregory.net/rapid"
 
 	"verif/harness/convgen"
@@ -272,16 +273,46 @@ func genMixedFree(t *rapid.T) UIn {
 
 // ---------------------------------------------------------------- shared oracle pieces
 
+// shadow is a live type that shares storage with one of the input types.
+type shadow struct {
+	ty   cty.Type
+	want spec.T
+}
+
+// checkShadows: the types that share storage with the inputs are what they were.
+func (b built) checkShadows(in UIn, when string) *facet.Failure {
+	for _, sh := range b.shadows {
+		if got := spec.FromCty(sh.ty); !got.Equal(sh.want) {
+			return facet.Failf("input-storage-rewritten", "%s of %v, a tuple type whose element types are a view into the storage of the live type %s: that type now reads %s", when, in.Types, sh.want, got)
+		}
+	}
+	return nil
+}
+
 type built struct {
-	types []cty.Type
-	vals  [][]cty.Value // only values whose built type is exactly the input type (or any value for a placeholder input)
-	free  bool          // all inputs placeholder-free
+	shadows []shadow
+	types   []cty.Type
+	vals    [][]cty.Value // only values whose built type is exactly the input type (or any value for a placeholder input)
+	free    bool          // all inputs placeholder-free
 }
 
 func build(in UIn) built {
 	b := built{free: true}
 	for i, ty := range in.Types {
 		ct := ty.Cty()
+		if ty.K == spec.KTuple && len(ty.Elems) > 0 && (len(ty.String())+i)%2 == 0 {
+			// Half of the tuple inputs are handed over as the library itself
+			// makes them: the type of slice(unknown longer tuple, 0, n), whose
+			// element types are a view into the longer tuple type's storage,
+			// with room behind them. The longer type stays alive and is looked
+			// at again after the unification.
+			long := spec.Tuple(append(append([]spec.T(nil), ty.Elems...), spec.String, spec.Bool, spec.Number)...)
+			lt := long.Cty()
+			if pre, err := stdlib.SliceFunc.ReturnTypeForValues([]cty.Value{cty.UnknownVal(lt), cty.NumberIntVal(0), cty.NumberIntVal(int64(len(ty.Elems)))}); err == nil && pre.Equals(ct) {
+				ct = pre
+				b.shadows = append(b.shadows, shadow{ty: lt, want: long})
+			}
+		}
 		b.types = append(b.types, ct)
 		if ty.HasDynamic() {
 			b.free = false
@@ -544,6 +575,9 @@ func init() {
 				}
 				for i := range b.types {
 					for _, v := range b.vals[i] {
+						if f := b.checkShadows(in, modeName(unsafe)+" unification"); f != nil {
+							return f
+						}
 						if o := apply(r.convs[i], v); o.pan != "" {
 							f := facet.Failf("conv-panic", "%s unification of %v -> %s: conversion %d panicked on %#v: %s", modeName(unsafe), in.Types, spec.FromCty(r.ty), i, v, o.pan).With("mode", modeName(unsafe))
 							if cause := failureCause(in, b, i, r.ty, v, unsafe); cause != "" {
@@ -579,6 +613,9 @@ func init() {
 						return facet.Failf("failed-with-conversions", "%s unification of %v failed but returned a non-nil conversion slice", modeName(unsafe), in.Types)
 					}
 					continue
+				}
+				if f := b.checkShadows(in, modeName(unsafe)+" unification"); f != nil {
+					return f
 				}
 				if err := checkApply(c, in, b, r, unsafe, false); err != nil {
 					return err
@@ -802,7 +839,6 @@ func init() {
 		},
 	})
 }
-
 
 // ---------------------------------------------------------------- safe/placeholder-members
 
